@@ -25,6 +25,7 @@ func init() {
 				PairsSample: scale(tier, 40, 400),
 				Random:      scale(tier, 100, 1500),
 				Steer:       true,
+				Drops:       true,
 			}, tier)
 		},
 		Run: runRetryCase("C01", func(a *scen.Analysis) ([]scen.Finding, bool, map[string]int) {
@@ -54,6 +55,7 @@ func init() {
 				Pairs:       pick(tier, []string{"q2x1", "q2x2"}, []string{"q2x1", "q2x2", "q2x3", "q2mix"}),
 				PairsSample: scale(tier, 60, 600),
 				Random:      scale(tier, 100, 2000),
+				Drops:       true,
 			}, tier)
 		},
 		Run: runRetryCase("C02", func(a *scen.Analysis) ([]scen.Finding, bool, map[string]int) {
@@ -102,6 +104,7 @@ func init() {
 				Singles:     true,
 				PairsSample: scale(tier, 40, 600),
 				Random:      scale(tier, 100, 1500),
+				RandHist:    scale(tier, 120, 4000),
 			}, tier)
 		},
 		Run: runRetryCase("C08", func(a *scen.Analysis) ([]scen.Finding, bool, map[string]int) {
@@ -125,6 +128,7 @@ func init() {
 				Pairs:       pick(tier, []string{"q2x2"}, []string{"q2x2", "q2x3", "preset"}),
 				PairsSample: scale(tier, 50, 500),
 				Random:      scale(tier, 100, 1500),
+				Drops:       true,
 			}, tier)
 		},
 		Run: runRetryCase("C12", func(a *scen.Analysis) ([]scen.Finding, bool, map[string]int) {
